@@ -29,7 +29,7 @@ ASSUMPTIONS = [
 ]
 REQUIRED_CLASSES = ["w=1", "w-equals-row-length", "w-one-more-than-row", "row-shorter-than-w", "empty-row", "bit-packed", "generic", "k>=16",
                     "minimizers", "match_string", "motif", "count", "view-input", "call-history", "history-same-size-other-alphabet", "motif-alphabet-times-window>256",
-                    "large-input", "alphabet-of-fewer-than-four-letters"]
+                    "large-input", "alphabet-of-fewer-than-four-letters", "plain-text-view-input"]
 BOUNDS = {"quick": "exhaustive core (<=3 rows, length <=4, two letters, w<=5, all functions); 400 sampled per function family; 24 inputs of 70 000 to 3 000 000 letters",
           "thorough": "exhaustive core; 20000 sampled; 42 inputs of 70 000 to 5 000 000 letters"}
 BUDGET_S = {"quick": 300, "thorough": 1500}
@@ -85,6 +85,8 @@ def classify(case):
     cl = [case["fn"]]
     if case.get("view"):
         cl.append("view-input")
+        if case.get("text_input") and case.get("alpha") == "ACGT":
+            cl.append("plain-text-view-input")
     if w == 1:
         cl.append("w=1")
     if any(len(r) == w for r in rows):
@@ -151,7 +153,8 @@ def check(case, stats=None):
             alpha = ALPHA[case["alpha"]]
             enc = enc_of(case["alpha"])
             k = case["k"]
-            seqs = _input(rows, enc, case)
+            # (plain text handed to a DNA function is encoded on the way in: the same values are expected)
+            seqs = _input(rows, None if (case.get("text_input") and case["alpha"] == "ACGT") else enc, case)
             if fn == "kmers":
                 res = bnp.sequence.get_kmers(seqs, k)
                 got = [list(map(int, r)) for r in res.raw().tolist()] if hasattr(res, "raw") else res.tolist()
@@ -391,6 +394,8 @@ def sampled_case(draw, fn, max_rows, max_len):
         # the same rows handed over as a selection from a larger, differently ordered collection (a non-contiguous view)
         case["view"] = {"extra": draw(st.lists(st.text(alphabet=chars, min_size=0, max_size=max(max_len, w + 2)), min_size=0, max_size=3)),
                         "mult": draw(st.integers(1, 1008))}
+    if fn in ("kmers", "count") and case.get("alpha") == "ACGT" and draw(st.booleans()):    # (get_minimizers asks for encoded input)
+        case["text_input"] = True          # plain text in, encoded by the function itself
     return case
 
 
